@@ -184,11 +184,13 @@ Lemma all_ok_head P x l : all_ok P (x :: l) -> P x = true.
 Proof. unfold all_ok. intros H. inversion H; assumption. Qed.
 
 Ltac store_tac :=
-  cbn [s_in s_out sess_with sess_store session_new store_all map] in *;
+  cbn [s_in s_out sess_with sess_store session_new] in *;
   repeat match goal with
   | |- _ /\ _ => split
   | |- True => exact I
   | |- all_ok _ [] => apply all_ok_nil
+  | |- all_ok _ (store_all []) => apply all_ok_nil
+  | |- all_ok _ [_] => apply Forall_cons; [|apply Forall_nil]
   | |- all_ok _ (store_all (store_save _ _)) => apply store_save_ok
   | |- all_ok _ (store_all (store_delete _ _)) => apply store_delete_ok
   | |- all_ok _ (_ ++ _) => apply all_ok_app
@@ -210,10 +212,6 @@ Proof.
   - intros s e s' (H1 & H2 & H3 & H4 & H5) Hc. unfold inv_store. unfold step_clo, guard in Hc.
     destruct e; try discriminate Hc; bm Hc; inv_some Hc; unfold clo_enqueue;
       repeat match goal with |- context [if ?b then _ else _] => destruct b end; sf; store_tac.
-    constructor; [apply ack_packet_is_ack|constructor].
-    constructor; [apply ack_packet_is_ack|constructor].
-    constructor; [apply ack_packet_is_ack|constructor].
-    constructor; [apply ack_packet_is_ack|constructor].
   - intros s e s' (H1 & H2 & H3 & H4 & H5) Hp. unfold inv_store. unfold_proc Hp.
     destruct (pp s) eqn:Epp; destruct e; try discriminate Hp; bm Hp; inv_some Hp; sf; cbn [pp_ok] in *;
       store_tac.
@@ -222,6 +220,7 @@ Proof.
            apply (list_eqb_eq _ packet_eqb_eq) in Hx; try rewrite Hx in *; cbn [store_all map] in *; try assumption end.
     all: try match goal with Hx : packet_eqb _ _ = true |- _ => apply packet_eqb_eq in Hx; subst end.
     all: store_tac.
+    all: try match goal with Hx : ?a = ?b |- all_ok _ ?b => rewrite <- Hx; assumption end.
   - intros s e s' (H1 & H2 & H3 & H4 & H5) Hd. unfold inv_store. unfold step_deq, take_deq in Hd.
     destruct (dp s) eqn:Edp; destruct e; try discriminate Hd; bm Hd; inv_some Hd; sf; cbn [dp_ok] in *;
       repeat match goal with |- context [match ?b with _ => _ end] => destruct b end; sf; cbn [dp_ok] in *;
